@@ -192,6 +192,46 @@ def reusable_sequences(ctx, ctg, rng):
                 ctx.fail("reusable optimizer (%s) raised %r on a query of a sequence" % (kind, e), rec)
 
 
+def same_contraction_repeats(ctx, ctg, rng, inputs, output, size_dict, rec):
+    """ONE RandomGreedyOptimizer called several times on the SAME contraction (supported: it continues
+    the search), cycling through __call__, ssa_path and search with one trial per call and a high
+    temperature: after EVERY call best_flops must be the cost of the tree built from the path just
+    returned (and, right after search, of opt.tree)."""
+    seed = rng.randrange(2 ** 30)
+    opt = ctg.RandomGreedyOptimizer(max_repeats=1, temperature=(0.5, 4.0), costmod=(0.1, 4.0), seed=seed,
+                                    accel=False, parallel=False)
+    calls = []
+    for k in range(rng.randint(4, 6)):
+        how = ("call", "ssa_path", "search")[(k + seed) % 3]
+        calls.append(how)
+        r2 = dict(rec, seed=seed, calls=list(calls))
+        try:
+            if how == "call":
+                path = guarded(lambda: opt(inputs, output, size_dict))
+                tree = ctg.ContractionTree.from_path(inputs, output, size_dict, path=[tuple(p_) for p_ in path])
+            elif how == "ssa_path":
+                sp = guarded(lambda: opt.ssa_path(inputs, output, size_dict))
+                tree = ctg.ContractionTree.from_path(inputs, output, size_dict, ssa_path=[tuple(p_) for p_ in sp])
+            else:
+                tree = guarded(lambda: opt.search(inputs, output, size_dict))
+                if opt.tree is not tree and opt.tree.total_flops() != tree.total_flops():
+                    ctx.fail("RandomGreedyOptimizer.tree is not the tree search() returned", r2)
+        except _Timeout:
+            ctx.fail("RandomGreedyOptimizer did not return within 20 s", r2)
+            return
+        except Exception as e:
+            ctx.fail("RandomGreedyOptimizer raised %r when called again on the same contraction" % (e,), r2)
+            return
+        F = tree.total_flops()
+        rep = 10 ** opt.best_flops
+        if abs(rep - round(rep)) > 1e-6 * max(1, round(rep)) or round(rep) != F:
+            ctx.fail("RandomGreedyOptimizer called %d times on the same contraction (last: %s): best_flops says %r, the tree "
+                     "built from the path just returned costs %r" % (len(calls), how, rep, F),
+                     dict(r2, reported_flops=rep, tree_flops=F, returned_path=[list(p_) for p_ in tree.get_ssa_path()]))
+            return
+        ctx.count("repeat_calls")
+
+
 def run(ctx):
     if not standard_proof_steps(ctx):
         return
@@ -413,6 +453,8 @@ def run(ctx):
                     if round(10 ** f4) != t4.total_flops():
                         ctx.fail("optimize_random_greedy_track_flops(simplify=False) reports %r, tree costs %r" % (
                             10 ** f4, t4.total_flops()), dict(rec, seed=seed))
+                if N >= 4:
+                    same_contraction_repeats(ctx, ctg, rng, inputs, output, size_dict, rec)
                 if ci % 6 == 0:
                     ropt = ctg.ReusableRandomGreedyOptimizer(max_repeats=3, seed=seed, accel=False, parallel=False,
                                                              directory=None)
